@@ -153,6 +153,10 @@ static struct Method* Type_Methods(void) {
   
 }
 
+#ifdef CELLO_VERIF
+void (*cello_verif_yield)(int site) = NULL;
+#endif
+
 enum {
   CELLO_NBUILTINS = 2 + (CELLO_CACHE_NUM / 3),
   CELLO_MAX_INSTANCES = 256
@@ -332,6 +336,7 @@ static var Type_Scan(var self, var cls) {
   t = (struct Type*)self + CELLO_NBUILTINS; 
   while (t->name) {
     if (strcmp(t->name, Type_Builtin_Name(cls)) is 0) {
+      CELLO_VERIF_YIELD(2);
       t->cls = cls;
       return t->inst;
     }
@@ -426,6 +431,7 @@ bool type_implements_method_at_offset(var self, var cls, size_t offset) {
     var inst = ((var*)self)[i]; \
     if (inst is NULL) { \
       inst = Type_Scan(self, lit); \
+      CELLO_VERIF_YIELD(1); \
       ((var*)self)[i] = inst; \
     } \
     return inst; \
@@ -488,6 +494,7 @@ static var Type_Of(var self) {
   }
 #endif
   
+  if (head->type is NULL) { CELLO_VERIF_YIELD(3); }
   if (head->type is NULL) { head->type = Type; }
   
   return head->type;
